@@ -369,6 +369,7 @@ impl C12World {
                 let budget = simhooks::event_budget(geom::edge_count(&l.op) + geom::edge_count(&r.op));
                 h.events.set(0);
                 h.ticks.set(0);
+                h.connect_steps.set(0);
                 h.cancel_at.set(0);
                 h.budget.set(budget);
                 let out = heap::with_policy(Policy::CANON, || simhooks::guarded(|| call_built(&l, &r, OPS[step.op as usize], step.pairing, step.f32_, false, step.save)));
@@ -688,11 +689,31 @@ impl World for C12World {
         }
         let ok = sh.sched.run(Duration::from_secs(15));
         if !ok {
-            // A client blocks on something the simulator does not own (e.g. a lock that another, parked client
-            // holds across a sweep event). The blocked threads cannot be recovered; the parent restarts the batch
-            // at call granularity (no scheduling points inside a call), where such a lock is never contended.
-            println!("STALLED: a simulated client blocks on something the simulator does not own");
             use std::io::Write;
+            // No scheduling point for 15 s. Either the running client waits for something the simulator does not own
+            // (e.g. a lock that another, parked client holds across a sweep event), or it computes without ever coming
+            // back (a loop that does not end in this interleaving). The process's CPU time tells the two apart.
+            let cpu = || -> f64 {
+                std::fs::read_to_string("/proc/self/stat").ok().and_then(|t| {
+                    let f: Vec<&str> = t.rsplit(')').next().unwrap_or("").split_whitespace().collect();
+                    Some((f.get(11)?.parse::<f64>().ok()? + f.get(12)?.parse::<f64>().ok()?) / 100.0)
+                }).unwrap_or(0.0)
+            };
+            let c0 = cpu();
+            std::thread::sleep(Duration::from_millis(1500));
+            let busy = cpu() - c0 > 0.9;
+            if busy {
+                // every call of this world returned in isolation (the reference pass is over), so a call that keeps
+                // computing here is an outcome that depends on the interleaving
+                let rec = sh.sched.m.lock().map(|g| g.log.clone()).unwrap_or_default();
+                *self.recorded.lock().unwrap() = rec;
+                println!("NEVER-RETURNS {}", self.to_json());
+                let _ = std::io::stdout().flush();
+                std::process::exit(5);
+            }
+            // The blocked threads cannot be recovered; the parent restarts the batch at call granularity (no scheduling
+            // points inside a call), where such a lock is never contended.
+            println!("STALLED: a simulated client blocks on something the simulator does not own");
             let _ = std::io::stdout().flush();
             std::process::exit(4);
         }
